@@ -6,6 +6,7 @@ changes its verdict.  A rename is behaviour-preserving, so any new finding or AN
 a name-dependence of a rule.
 
   rename_twins.py [file ...]      (default: the driver / manager / pragma / discovery files)
+  rename_twins.py --private [file ...]   rename every private method / field instead (default: all files)
 """
 import ast
 import importlib
@@ -78,6 +79,49 @@ class Renamer(ast.NodeTransformer):
         return node
 
 
+def _private(name: str) -> bool:
+    return name.startswith("__") and not name.endswith("__")
+
+
+def private_renamed(text: str, suffix: str = "_zq") -> str:
+    """Every private (double-underscore) method, field and class attribute of one file renamed."""
+    tree = ast.parse(text)
+    names = set()
+    for node in ast.walk(tree):
+        if isinstance(node, (ast.FunctionDef, ast.AsyncFunctionDef)) and _private(node.name):
+            names.add(node.name)
+        elif isinstance(node, ast.Attribute) and _private(node.attr):
+            names.add(node.attr)
+        elif isinstance(node, ast.ClassDef):
+            for stmt in node.body:
+                targets = stmt.targets if isinstance(stmt, ast.Assign) else [stmt.target] if isinstance(stmt, ast.AnnAssign) else []
+                names.update(t.id for t in targets if isinstance(t, ast.Name) and _private(t.id))
+    if not names:
+        return text
+
+    class Private(ast.NodeTransformer):
+        def visit_FunctionDef(self, node: ast.FunctionDef) -> ast.AST:
+            self.generic_visit(node)
+            if node.name in names:
+                node.name += suffix
+            return node
+
+        def visit_Name(self, node: ast.Name) -> ast.AST:
+            if node.id in names:
+                node.id += suffix
+            return node
+
+        def visit_Attribute(self, node: ast.Attribute) -> ast.AST:
+            self.generic_visit(node)
+            if node.attr in names:
+                node.attr += suffix
+            return node
+
+    tree = Private().visit(tree)
+    ast.fix_missing_locations(tree)
+    return ast.unparse(tree)
+
+
 def findings_for(source: Source):
     out = {}
     try:
@@ -101,12 +145,20 @@ def main() -> int:
     base_source = Source()
     base = findings_for(base_source)
     overlay = {}
+    private = "--private" in files
+    files = [f for f in files if f != "--private"] or (base_source.python_files() if private else DEFAULT_FILES)
     for rel in files:
+        if private:
+            overlay[rel] = private_renamed(base_source.read(rel, raw=True))
+            continue
         tree = ast.parse(base_source.read(rel))
         tree = Renamer().visit(tree)
         ast.fix_missing_locations(tree)
         overlay[rel] = ast.unparse(tree)
-    renamed = findings_for(base_source.with_overlay(overlay))
+    renamed_source = base_source.with_overlay(overlay)
+    renamed = findings_for(renamed_source)
+    if private:
+        print(f"{len(renamed_source.renames)} private members re-identified under their pinned names")
     problems = 0
     for prop in PROPS:
         # finding keys contain statement text, which changes with the rename: compare by rule id multiset
